@@ -940,8 +940,10 @@ func c15Worker(w *W) {
 				for k, v := range m {
 					lk := strings.ToLower(strings.NewReplacer("-", "", "_", "").Replace(k))
 					if strings.HasSuffix(lk, "buffersize") || strings.Contains(v, "ufferSize") || strings.Contains(v, "uffer_size") {
-						if n, err := strconv.ParseInt(strings.TrimSpace(v), 0, 64); err == nil && n > 1_000_000 {
-							m[k] = "1000000"
+						if strings.HasPrefix(strings.TrimSpace(v), "${") {
+							m[k] = "1000" // the property behind it may have been mutated into a huge number
+						} else if n, err := strconv.ParseInt(strings.TrimSpace(v), 0, 64); err == nil && n > 5000 {
+							m[k] = "5000"
 						} else if err != nil && (strings.Contains(v, "ufferSize") || strings.Contains(v, "uffer_size")) {
 							delete(m, k) // inline expression carrying a buffer size: dropped from the mutated variant
 							desc += " (inline logger expression removed)"
@@ -1075,7 +1077,7 @@ func init() {
 		Rule: "abstract configuration trees over all registered plugin types (appenders Discard, Console, File, RollingFile + recording and probe plugins; loggers Logger, AsyncLogger, Discard, Console, File, RollingFile; layouts; a probe carrying an attribute of every injectable kind/width and single, defaulted-list and optional-list elements) with each attribute independently configured or left to its default, 1/6 of the configured values routed through ${property}; " +
 			"each tree is rendered twice to a flat map with per-key random spelling (camel/kebab/snake/Capitalised) and a per-plugin choice of flat keys vs an inline 'name!' expression. 2/5 of the trees carry one classified error (ill-typed or out-of-width value per kind, unknown plugin/layout type, missing required attribute/element, dangling reference, missing ${} target, bufferSize<100) and must be rejected; the others must be accepted and every injected field (read from the live plugins by reflection and from the probe) must equal configured-else-default. " +
 			"A second worker kind applies one random key/value mutation to each rendering and judges totality only (returns, no panic, Destroy works). Non-trivial/distinct = distinct (set of plugin types, inline used, properties used) classes of accepted configurations + error classes rejected + (mutation operator, outcome) pairs.",
-		Assumptions: []string{"conflicting duplicate spellings of one key, whitespace-padded values and plugin names containing '_'/'-' are not generated", "mutated variants never carry an async buffer size above 1e6 (multi-gigabyte queue allocation is resource exhaustion, outside the statement)", "numeric values are rendered in decimal or 0x-hex only"},
+		Assumptions: []string{"conflicting duplicate spellings of one key, whitespace-padded values and plugin names containing '_'/'-' are not generated", "mutated variants never carry an async buffer size above 5000 (multi-gigabyte queue allocation is resource exhaustion, outside the statement)", "numeric values are rendered in decimal or 0x-hex only"},
 		Run: func(d *D) {
 			var specs []Spec
 			for i := 0; i < 12; i++ {
@@ -1083,9 +1085,11 @@ func init() {
 				s.N = d.Pick(1500, 30000)
 				specs = append(specs, s)
 			}
-			for i := 0; i < 4; i++ {
+			// mutated configurations may fail after loggers were started, which leaves them running (outside every
+			// property's text): workers are kept short-lived so that this cannot exhaust the worker
+			for i := 0; i < int(d.Pick(4, 32)); i++ {
 				s := d.NewSpec("mutated", fmt.Sprintf("mut-%d", i), 50+i, 12)
-				s.N = d.Pick(1500, 30000)
+				s.N = d.Pick(1500, 3000)
 				specs = append(specs, s)
 			}
 			d.RunWorkers(specs, 16)
